@@ -10,7 +10,7 @@ from typing import Any
 from vlib import common, tlc, listhost, listreplay
 
 ALL_OPS = ('{"append","extend","insert","pop","delitem","delslice","setitem","setslice","clear","remove",'
-           '"discard","mset","mdel","mpop","edit","iadd","reverse","msetdefault","mupdate"}')
+           '"discard","mset","mdel","mpop","edit","iadd","reverse","msetdefault","mupdate","mpopitem"}')
 INVS = ['ClaimOK', 'FrameOK', 'RefusalOK', 'NoDupItems', 'TypeOK']
 
 KINDS = {
